@@ -38,7 +38,9 @@ RULE = ("histories of clustering calls (one-shot GraphCluster, incremental lib_c
         "distinct = distinct (pool, ops)")
 EXHAUSTIVE = {"quick": False, "thorough": False}
 EXPLANATION = ("Theorems are for all lists and all equivalence relations; the correspondence samples multisets of corpus reaction centres "
-               "(ITS rc graphs with order pairs) and small synthetic molecule graphs, every list order being a seeded shuffle; "
+               "(ITS rc graphs with order pairs) and small synthetic molecule graphs (also with wildcard atoms and with default-valued "
+               "labels -- charge 0, order 1, element * -- absent on some copies), starting templates with gaps in the class numbers or an "
+               "empty template list, every list order being a seeded shuffle; "
                "nothing is enumerated exhaustively except all 6 orders of 3-item multisets of the first 3 near-miss triples.")
 TRUSTED_BASE = [
     "Coq 8.16.1 kernel + vm_compute (no native_compute)",
